@@ -85,8 +85,7 @@ def _accepts(choice: ChoiceChoice, ch: str) -> bool:
             return _ascii_fold(choice.value) == _ascii_fold(ch)
         return choice.value == ch
     if isinstance(choice, ChoiceRange):
-        low, high = sorted((choice.start, choice.end))
-        return low <= ch <= high
+        return choice.start <= ch <= choice.end
     return choice.expression.parse_char(ch)  # UnicodePropertyRule
 
 
